@@ -1,7 +1,7 @@
 (* C11 assembled: the values the readers accept, and what holds for them. *)
 From LibTw2 Require Import Base.Res Model.Varint Model.Packer Model.Snap Proofs.SnapBase Proofs.SnapRep Proofs.SnapDelta
   Proofs.SnapApply Proofs.SnapOk Proofs.SnapTotal Proofs.SnapTotal2 Proofs.SnapWire Proofs.SnapWireInst Proofs.SnapC09
-  Proofs.SnapSer Proofs.SnapReg Proofs.SnapObs Proofs.SnapBuilder.
+  Proofs.SnapSer Proofs.SnapReg Proofs.SnapObs Proofs.SnapBuilder Proofs.SnapBuilder2 Proofs.SnapBuilder3 Proofs.SnapC10.
 From Coq Require Import ZArith List Lia Bool Permutation.
 Import ListNotations.
 Open Scope Z_scope.
@@ -70,3 +70,29 @@ Qed.
 
 Lemma wpost_fine {A} (P : A -> Prop) (m : wres A) : wpost P m -> fine (fst m).
 Proof. unfold wpost, fine. destruct (fst m); auto. Qed.
+
+(* the delta between two accepted snapshots (outside K09), applied: the target again, with exactly
+   the warnings the target's own registry check gives *)
+Theorem accepted_after_delta S S2 : snap_accepted S -> snap_accepted S2 ->
+  k09 (sn_raw S) (sn_raw S2) = false ->
+  exists d S' ws, create_raw (sn_raw S) (sn_raw S2) = Ok d /\ snap_read_with_delta S d = (Ok S', ws)
+    /\ build_from_raw (sn_raw S2) = (Ok S2, ws) /\ like S2 S'.
+Proof.
+  intros HS HS2 Hk. destruct (proj2 accepted_good S HS) as [G _]. destruct (proj2 accepted_good S2 HS2) as [G2 [ws Ec]].
+  pose proof (sg_raw _ G) as GRA. pose proof (sg_raw _ G2) as GRB.
+  destruct (g_rep _ GRA) as [chA HA]. destruct (g_rep _ GRB) as [chB HB].
+  pose proof (k09_false _ _ _ _ HA HB Hk) as Hsl.
+  destruct (apply_created (sn_raw S) (sn_raw S2) chA chB HA HB (g_keys _ GRA) (g_keys _ GRB) (g_buf _ GRA) (g_buf _ GRB)
+              (good_lim _ _ GRB HB) Hsl) as (B' & ch' & Eap & R' & Hlook).
+  pose proof (build_from_raw_congr B' ch' (sn_raw S2) chB R' HB Hlook) as Hcg. rewrite Ec in Hcg.
+  destruct (build_from_raw B') as [[S1| | |] ws1] eqn:Eb; try contradiction.
+  destruct Hcg as (Hext & Hws & Hr1 & _). subst ws1.
+  exists (created (sn_raw S) (sn_raw S2) chA chB), S1, ws.
+  split; [apply create_raw_spec; try assumption; [apply (g_keys _ GRA)|apply (g_keys _ GRB)]|].
+  split; [unfold snap_read_with_delta; rewrite Eap, wbind_ok'; exact Eb|]. split; [exact Ec|].
+  split; [exact Hext|]. split.
+  - rewrite Hr1. pose proof (read_with_delta_good (sn_raw S) (created (sn_raw S) (sn_raw S2) chA chB) GRA
+                               (dgood_created _ _ chA chB HA HB (g_buf _ GRB))) as W.
+    unfold wpost in W. rewrite Eap in W. exact W.
+  - exists chB, ch'. split; [exact HB|]. split; [rewrite Hr1; exact R'|exact Hlook].
+Qed.
